@@ -9,6 +9,8 @@ import hashlib
 from fractions import Fraction
 
 VERIF = os.path.dirname(os.path.dirname(os.path.abspath(__file__)))
+# scratch runs against a mutated copy of the repo must not overwrite the committed evidence
+OUT = os.environ.get('VERIF_OUT_DIR') or VERIF
 REPLAY_PY = os.environ.get('PYTOUGH_REPLAY_PYTHON', '/venv/bin/python')
 
 EXIT_OK, EXIT_VIOLATION, EXIT_INCONCLUSIVE = 0, 1, 3
@@ -48,6 +50,8 @@ def summarize(name, res, failures, samples=None, extra=None):
     outcomes = {}
     for p in res['paths']:
         outcomes[str(p.outcome)] = outcomes.get(str(p.outcome), 0) + 1
+    extra = dict(extra or {})
+    extra.setdefault('functions', res.get('functions', []))
     return TaskResult(name=name, stats=st, exhausted=res['exhausted'], pending=res['pending'],
                       aborted=aborted, unknowns=unknowns, failures=failures,
                       outcomes=outcomes, wall_s=res['wall_s'], samples=samples or [],
@@ -59,7 +63,8 @@ def run_tasks(tasks, nproc=None, wall_s=None):
     Runs in forked worker processes (the reloaded modules are loaded in each
     worker by the callable itself)."""
     import multiprocessing as mp
-    nproc = nproc or min(16, os.cpu_count() or 1, max(1, len(tasks)))
+    nproc = nproc or int(os.environ.get('VX_NPROC', '0') or 0) or 16
+    nproc = min(nproc, os.cpu_count() or 1, max(1, len(tasks)))
     if nproc <= 1 or len(tasks) <= 1:
         return [_run_one(t) for t in tasks]
     ctx = mp.get_context('fork')
@@ -152,12 +157,12 @@ class Report(object):
         for r in self.results:
             for f in r.get('failures', []):
                 seen.setdefault(f['key'], []).append(f)
-        os.makedirs(os.path.join(VERIF, 'replays', self.pid), exist_ok=True)
+        os.makedirs(os.path.join(OUT, 'replays', self.pid), exist_ok=True)
         for key, fl in sorted(seen.items()):
             reproduced = None
             path = None
             for n, f in enumerate(fl[:3]):   # try up to three witnesses per key
-                path = os.path.join(VERIF, 'replays', self.pid, _safe(key) + ('' if n == 0 else '.%d' % n) + '.json')
+                path = os.path.join(OUT, 'replays', self.pid, _safe(key) + ('' if n == 0 else '.%d' % n) + '.json')
                 with open(path, 'w') as fh:
                     json.dump(dict(property=self.pid, key=key, what=f.get('what', ''), data=jsonable(f.get('replay'))), fh, indent=1)
                 ok, out = run_replay(self.pid, path)
@@ -222,13 +227,13 @@ class Report(object):
         ev = dict(property_id=self.pid, tier=self.tier, seed=self.seed, level=level,
                   coverage=cov, assumptions=self.assumptions, wall_s=round(wall, 2),
                   violations=len(self.violations))
-        os.makedirs(os.path.join(VERIF, 'evidence'), exist_ok=True)
-        with open(os.path.join(VERIF, 'evidence', self.pid + '.json'), 'w') as fh:
+        os.makedirs(os.path.join(OUT, 'evidence'), exist_ok=True)
+        with open(os.path.join(OUT, 'evidence', self.pid + '.json'), 'w') as fh:
             json.dump(jsonable(ev), fh, indent=1)
         for key, kn, path in self.known_hits:
-            print('KNOWN-FINDING: property=%s %s [%s] replay=%s' % (self.pid, kn.get('what', ''), key, os.path.relpath(path, VERIF)))
+            print('KNOWN-FINDING: property=%s %s [%s] replay=%s' % (self.pid, kn.get('what', ''), key, os.path.relpath(path, OUT)))
         for key, what, path in self.violations:
-            print('VIOLATION property=%s replay=%s  (%s: %s)' % (self.pid, os.path.relpath(path, VERIF), key, what))
+            print('VIOLATION property=%s replay=%s  (%s: %s)' % (self.pid, os.path.relpath(path, OUT), key, what))
         code = EXIT_OK
         if self.violations: code = EXIT_VIOLATION
         elif self.harness_errors or self.inconclusive: code = EXIT_INCONCLUSIVE
@@ -258,7 +263,7 @@ def _z3ver():
 def run_replay(pid, path):
     """Run the concrete replay under the repo's own interpreter on the real
     (un-rewritten) modules.  exit 0 = violation reproduced."""
-    cmd = [REPLAY_PY, os.path.join(VERIF, 'harness', 'replay.py'), pid, path]
+    cmd = [REPLAY_PY, '-W', 'ignore', os.path.join(VERIF, 'harness', 'replay.py'), pid, path]
     env = dict(os.environ)
     env['PYTHONPATH'] = os.environ.get('PYTOUGH_REPO', '/repo')
     try:
